@@ -465,6 +465,31 @@ def check_case(module, mod_syms, dialect, fmt, tu, implicit, specs):
     return diffs, outcome, True
 
 
+def check_reuse(module, mod_syms, dialect, fmt, tu, implicit, specs1, specs2):
+    """ONE Assembler object used for two texts, finalize() after each: the second result must be what a fresh assembler
+    gives for the second text, and the first result must not change afterwards.  Returns (diffs, outcome, nontrivial)."""
+    from gtirb_rewriting.assembler import Assembler
+
+    t1, t2 = T.tokens_of(dialect, specs1), T.tokens_of(dialect, specs2)
+    e1, e2 = model(t1, fmt, tu, implicit), model(t2, fmt, tu, implicit)
+    if e1["errors"] or e2["errors"]:
+        return [], "reuse:skipped-unsupported-text", False
+    a = Assembler(module, trivially_unreachable=tu, implicit_cfi_procedure=implicit)
+    try:
+        a.assemble(T.render(t1), T.x86_syntax_of(dialect))
+        r1 = a.finalize()
+        a.assemble(T.render(t2), T.x86_syntax_of(dialect))
+        r2 = a.finalize()
+    except Exception as ex:  # noqa
+        return [D("exception-unexpected", r_exc=_exc_class(ex), r_use="reused-assembler", msg=str(ex)[:160])], "reuse:unexpected", True
+    diffs = []
+    for which, (r, e, t) in (("second", (r2, e2, t2)), ("first-afterwards", (r1, e1, t1))):
+        for d in compare(r, e, t, dialect, module, mod_syms):
+            d["r_use"] = "reused-assembler:" + which
+            diffs.append(d)
+    return diffs, "reuse:ok" if not diffs else "reuse:diff", True
+
+
 def compare(res, exp, toks, dialect, module, mod_syms):
     diffs = []
     cs = T.cs_for(dialect)
@@ -713,6 +738,9 @@ def tasks(tier):
                         for i in range(len(voc)):
                             for j in range(len(voc)):
                                 out.append({"d": dialect, "f": fmt, "tu": tu, "v": vname, "L": L, "prefix": [i, j]})
+        # the same Assembler object for two texts of one token each
+        for tu in (False, True):
+            out.append({"d": dialect, "f": fmt, "tu": tu, "v": "full", "L": 1, "prefix": [], "reuse": True})
     # big tasks first so the pool drains evenly
     out.sort(key=lambda t: -(len(VOCABS[t["v"]]) ** (t["L"] - len(t["prefix"]))))
     return out
@@ -729,6 +757,15 @@ def run_task(task):
     voc = vocab_for(dialect, fmt, vname)
     implicit = IMPLICIT[vname]
     module, mod_syms = T.make_module(dialect, fmt)
+    if task.get("reuse"):
+        for s1 in voc:
+            for s2 in voc:
+                diffs, outcome, nontrivial = check_reuse(module, mod_syms, dialect, fmt, tu, implicit, (s1,), (s2,))
+                case = {"d": dialect, "f": fmt, "tu": tu, "implicit": implicit, "toks": [s1], "then": [s2]}
+                res.case((dialect, fmt, tu, implicit, "reuse", s1, s2), nontrivial=nontrivial, outcome=outcome)
+                if diffs:
+                    res.bad(case, diffs)
+        return res
     prefix = tuple(voc[i] for i in task["prefix"])
     for rest in itertools.product(voc, repeat=L - len(prefix)):
         specs = prefix + rest
@@ -748,5 +785,7 @@ def replay(case):
     dialect, fmt = case["d"], case["f"]
     T.validated(dialect)
     module, mod_syms = T.make_module(dialect, fmt)
+    if "then" in case:
+        return check_reuse(module, mod_syms, dialect, fmt, case["tu"], case["implicit"], tuple(case["toks"]), tuple(case["then"]))[0]
     diffs, _, _ = check_case(module, mod_syms, dialect, fmt, case["tu"], case["implicit"], tuple(case["toks"]))
     return diffs
